@@ -463,8 +463,9 @@ def r3(repo, res):
                           "_print_candidates": lambda *a: None, "solve_minor_model": lambda *a, **k: [], "Mutation": lambda *a: a},
                env={"Coverage": Obj(quality_filter="QUALITY")})(gene, Raw(), [m2, m3], "any")
         if sorted(got) != ["S", "S3"] or any(len(v_) != 1 for v_ in got.values()):
-            raise AnalysisError(f"estimate_minor hands threshold filters bound to { {k_: len(v_) for k_, v_ in got.items()} } to Coverage.filtered "
-                                "(expected one per structure, each asking for its own structure's copy number)")
+            # two structures with different copy numbers at the probed position, but not one threshold filter each
+            raise Raised(f"threshold filters handed to Coverage.filtered ask for the copy numbers of { {k_: len(v_) for k_, v_ in got.items()} } "
+                         "-- expected one filter per structure, each asking for its own structure's copy number")
         return f_, [got["S"][0], got["S3"][0]]
 
     for label, capture in (("major stage", capture_major), ("minor stage", capture_minor)):
@@ -507,9 +508,11 @@ def r3(repo, res):
     except AnalysisError as e:
         res.err("C15.R3", str(e))
         return
-    except (Unfoldable, Raised) as e:
+    except Unfoldable as e:
         res.err("C15.R3", f"minor stage on two structures: outside folding language: {e}")
         return
+    except Raised as e:
+        outer, bad = repo.func("minor::estimate_minor"), str(e)
     res.ob("C15.R3", outer, outer, bad is None,
            expected="two major solutions on different structures, one handing over a novel variant: each structure's filter keeps a variant iff it passes that "
                     "structure's own thresholds (cn_max and its own copy number + 0.5), novel or not",
